@@ -94,7 +94,9 @@ def make_entries(rng, level_tag, files, nshapes):
     exp_img = {}
     for k in rng.sample(["SceneCenterDateTime", "SceneStartDateTime", "SceneEndDateTime"], rng.randrange(1, 4)):
         d = f"{rng.randrange(2014, 2050):04d}{rng.randrange(1, 13):02d}{rng.randrange(1, 29):02d}"
-        t = f"{rng.randrange(0, 24):02d}:{rng.randrange(0, 60):02d}:{rng.randrange(0, 60):02d}.{rng.randrange(0, 1000):03d}"
+        # whole seconds, a single millisecond and the last millisecond are value classes of their own
+        ms = rng.choice([0, 0, 1, 10, 100, 999, rng.randrange(0, 1000), rng.randrange(0, 1000)])
+        t = f"{rng.choice([0, 23, rng.randrange(0, 24)]):02d}:{rng.choice([0, 59, rng.randrange(0, 60)]):02d}:{rng.choice([0, 59, rng.randrange(0, 60)]):02d}.{ms:03d}"
         img.append((k, f"{d} {t}"))
         exp_img[k] = f"{d[:4]}-{d[4:6]}-{d[6:8]}T{t}"
     for k in rng.sample(["ImageSceneCenterLatitude", "ImageSceneCenterLongitude", "ImageSceneLeftTopLatitude", "OffNadirAngle",
